@@ -45,6 +45,7 @@ class Engine:
         self.base = 0
         self.noise_used = False
         self.noise_sites = []
+        self.decided = {}
         self.freshn = 0
         self.declared = {}
         self.stats = dict(
@@ -105,6 +106,7 @@ class Engine:
         self.declared = {}
         self.noise_used = False
         self.noise_sites = []
+        self.decided = {}
         if not self.trail and model is not None:
             self.model = model
 
@@ -136,6 +138,20 @@ class Engine:
             return True
         if z3.is_false(cond):
             return False
+        # a condition already decided on this path keeps its value (no new decision, no solver query)
+        key = cond.get_id()
+        hit = self.decided.get(key)
+        if hit is not None:
+            return hit[0]
+        if z3.is_not(cond):
+            hit = self.decided.get(cond.arg(0).get_id())
+            if hit is not None:
+                return not hit[0]
+        d = self._branch(cond)
+        self.decided[key] = (d, cond)
+        return d
+
+    def _branch(self, cond):
         i = self.pos
         if i < len(self.trail):
             d = self.trail[i]
